@@ -28,7 +28,7 @@ MANIFEST = {
             "modelled. The specification side (a query's value does not depend on which other queries are asked) is the "
             "Lean theorem listed in the obligation list.",
     "note": "Trusted: harness. An engine OBJECT is unusable after an exception escaped execute(); histories therefore use a "
-            "fresh engine per history (same database/target reuse is what the property states). First-order sub-phase (harness/groundfo_util.py): programs with variables against ProbLogModel/GroundFO.lean, exact correspondence under the recorded schedule / history; the semantic statement (CorrectFO) is checked per program by Drivers.GroundFOCheck under the recorded and an arbitrary schedule, proved only structurally (C01GroundFO.*_partial).",
+            "fresh engine per history (same database/target reuse is what the property states). First-order sub-phase (harness/groundfo_util.py): programs with variables against ProbLogModel/GroundFO.lean, exact correspondence under the recorded schedule / history; the semantic statement (CorrectFO) is checked per program by Drivers.GroundFOCheck under the recorded and an arbitrary schedule, and proved for the model in partial-correctness form (C01GroundFOFull: every schedule and history, against Sem.wfm of the Herbrand instantiation, under the decidable hypotheses SpecOK which the driver decides per program; termination of the model is not proved).",
     "design_ref": "DESIGN.md §6 C08",
 }
 
